@@ -731,3 +731,168 @@ def det_queries(cases):
             r["site"] = info["site"]
         out.append(r)
     return {"results": out}
+
+
+# ------------------------------------------------------------------ C22 sampler with controlled randomness
+class _ScriptedRandom(object):
+    """Stands in for the `random` module inside problog.tasks.sample.  Every random() call is answered so that the
+    caller's comparison comes out as the scripted decision, with a value JUST below/above (or exactly at) the
+    threshold the caller is about to use - so the threshold and the comparison operator themselves are tested."""
+
+    def __init__(self, real, prefix):
+        self._real = real
+        self.prefix = list(prefix)
+        self.decisions = []       # [threshold, outcome]
+        self.uncontrolled = 0
+
+    def __getattr__(self, name):
+        return getattr(self._real, name)
+
+    def random(self):
+        import sys
+        fr = sys._getframe(1)
+        loc = fr.f_locals
+        i = len(self.decisions)
+        want = self.prefix[i] if i < len(self.prefix) else True
+        try:
+            if fr.f_code.co_name != "add_atom":
+                raise KeyError
+            if loc.get("group") is not None:
+                thr = float(loc["p"]) / float(loc["r"])
+                inclusive = True           # value = random() <= p / r
+            else:
+                thr = float(loc["probability"])
+                inclusive = False          # value = random() < prob
+        except Exception:
+            self.uncontrolled += 1
+            return self._real.random()
+        self.decisions.append([thr, bool(want)])
+        if want:
+            return thr if inclusive else thr - max(1e-12, thr * 1e-12)
+        return thr + max(1e-12, thr * 1e-12) if inclusive else thr
+
+
+def sample_tree(text, propagate_evidence=False, max_branches=700):
+    """Enumerate every coin-flip branch of the real sampler (one iteration of tasks.sample.sample per branch)."""
+    import problog.tasks.sample as S
+    from problog.program import PrologString
+    real = S.random
+    branches = []
+    stack = [[]]
+    uncontrolled = 0
+    try:
+        while stack:
+            prefix = stack.pop()
+            if len(branches) >= max_branches:
+                return {"too_many": True, "branches": []}
+            sr = _ScriptedRandom(real, prefix)
+            S.random = sr
+            model = PrologString(text)
+            engine = S.init_engine()
+            db, evidence, ev_target = S.init_db(engine, model, propagate_evidence)
+            target = S.SampledFormula()
+            for ev_fact in evidence:
+                target.add_atom(*ev_fact)
+            engine.functions = S.FunctionStore(target=target, database=db, engine=engine)
+            result = S.ground(engine, db, target=target)
+            accepted = bool(S.verify_evidence(engine, db, ev_target, target))
+            values = {str(k): bool(v) for k, v in result.to_dict().items()}
+            txt = result.to_string(db, with_probability=True)
+            printed = None
+            for line in txt.splitlines():
+                if line.startswith("% Probability:"):
+                    printed = float(line.split(":")[1])
+            n = len(sr.decisions)
+            uncontrolled += sr.uncontrolled
+            branches.append({"decisions": sr.decisions, "accepted": accepted, "values": values, "printed": printed,
+                             "exact_printed": float(target.probability)})
+            for j in range(len(prefix), n):
+                stack.append([d[1] for d in sr.decisions[:j]] + [False])
+    finally:
+        S.random = real
+    return {"branches": branches, "uncontrolled": uncontrolled}
+
+
+# ------------------------------------------------------------------ C28 python <-> prolog values
+def _val_to_py(v):
+    t = v["t"]
+    if t == "int":
+        return v["v"]
+    if t == "flt":
+        return v["v"] / 4.0
+    if t == "str":
+        return "".join(chr(c) for c in v["c"])
+    if t == "list":
+        return [_val_to_py(x) for x in v["a"]]
+    if t == "tup":
+        return tuple(_val_to_py(x) for x in v["a"])
+    raise ValueError(t)
+
+
+def _py_to_val(x):
+    if isinstance(x, bool):
+        return {"t": "other", "r": repr(x)}
+    if isinstance(x, int):
+        return {"t": "int", "v": x}
+    if isinstance(x, float):
+        q = x * 4
+        return {"t": "flt", "v": int(q)} if q == int(q) else {"t": "other", "r": repr(x)}
+    if isinstance(x, str):
+        return {"t": "str", "c": [ord(c) for c in x]}
+    if isinstance(x, list):
+        return {"t": "list", "a": [_py_to_val(y) for y in x]}
+    if isinstance(x, tuple):
+        return {"t": "tup", "a": [_py_to_val(y) for y in x]}
+    try:
+        from problog.logic import Term
+        if isinstance(x, Term) and x.arity == 0 and isinstance(x.functor, str):
+            return {"t": "str", "c": [ord(c) for c in x.functor]}      # an atom: its text
+    except Exception:
+        pass
+    return {"t": "other", "r": repr(x)}
+
+
+def pypl_roundtrip(values, via_export=False):
+    from problog.pypl import py2pl, pl2py
+    out = []
+    for v in values:
+        r = {"id": v["id"]}
+        try:
+            pv = _val_to_py(v["v"])
+            if not via_export:
+                r["out"] = _py_to_val(pl2py(py2pl(pv)))
+            else:
+                r["out"] = _py_to_val(_export_roundtrip(pv, v["id"]))
+            r["ok"] = 1
+        except Exception as e:
+            r["ok"] = 2
+            r["out"] = {"t": "other", "r": "%s: %s" % (type(e).__name__, e)}
+        out.append(r)
+    return {"results": out}
+
+
+def _export_roundtrip(pv, uid):
+    """Define a problog_export'ed Python function returning pv in a module file, load it with use_module and call it."""
+    import os
+    import tempfile
+    from problog.program import PrologString
+    from problog.engine import DefaultEngine
+    from problog.logic import Term
+    from problog.pypl import pl2py
+    if isinstance(pv, bool) or not isinstance(pv, (int, float, str, list)):
+        raise ValueError("no export type for %r" % (pv,))
+    typ = {int: "-int", float: "-float", str: "-str", list: "-list"}[type(pv)]
+    d = os.path.join(os.path.dirname(os.path.dirname(os.path.abspath(__file__))), "out", "c28mod")
+    os.makedirs(d, exist_ok=True)
+    fn = os.path.join(d, "m_%d_%d.py" % (os.getpid(), uid))
+    with open(fn, "w") as f:
+        f.write("from problog.extern import problog_export\n\n@problog_export(%r)\ndef vv():\n    return %r\n" % (typ, pv))
+    try:
+        eng = DefaultEngine()
+        db = eng.prepare(PrologString(":- use_module('%s').\n" % fn))
+        res = eng.query(db, Term("vv", None))
+        if len(res) != 1:
+            raise ValueError("exported function gave %d answers" % len(res))
+        return pl2py(res[0][0])
+    finally:
+        os.unlink(fn)
